@@ -182,4 +182,25 @@ def dispatch (available : List ProofKind) (wanted : ProofKind) (claimOk : Bool) 
       | .smt => run .smt
       | .other _ => .err "proof_not_supported"
 
+/-- a credential carries a *list* of proofs; VerifyProof works on the first one of the requested type and on no other.
+    `bind p` = the binding check of the credential against the claim proof `p` carries, `run p` = the type-specific
+    verification of `p` over that same claim. -/
+def selectProof {α : Type} (proofs : List (ProofKind × α)) (wanted : ProofKind) : Option α :=
+  match proofs with
+  | [] => none
+  | (k, p) :: rest => if k = wanted then some p else selectProof rest wanted
+
+def verifyList {α : Type} (proofs : List (ProofKind × α)) (wanted : ProofKind) (claimOk : α → Bool)
+    (bind : α → Except String Unit) (run : α → Outcome) : Outcome :=
+  match selectProof proofs wanted with
+  | none => .err "proof_not_found"
+  | some p =>
+    if !claimOk p then .err "core-claim"
+    else match bind p with
+      | .error e => .err e
+      | .ok () =>
+        match wanted with
+        | .other _ => .err "proof_not_supported"
+        | _ => run p
+
 end Gsp.Verify
